@@ -50,7 +50,7 @@ KEYS = ['a', 'b']
 def gen_case(seed, tier):
     rng = random.Random('%s/c07' % seed)
     r = rng.random()
-    scen = 'lin' if r < 0.6 else ('deque' if r < 0.75 else ('bulk' if r < 0.85 else 'realkill'))
+    scen = 'lin' if r < 0.55 else ('deque' if r < 0.68 else ('bulk' if r < 0.78 else ('evict' if r < 0.88 else 'realkill')))
     mfs = rng.choice((0, 8, 8, 2 ** 15))
     big_n = {0: 12, 8: 40, 2 ** 15: 2 ** 15 + 5}[mfs]
     cfg = {'scen': scen, 'settings': {'disk_min_file_size': mfs}, 'topology': 'procs', 'sched': {'kind': 'uniform'},
@@ -84,6 +84,24 @@ def gen_case(seed, tier):
         if progs['v'][0]['op'] == 'evict':
             progs['v'][0]['tag'] = 't1'
         cfg['clock'] = {'mode': 'frozen'}
+    elif scen == 'evict':
+        # a write that evicts file-backed items by policy (cache at its size limit), killed at any point
+        cfg['target'] = 'cache'
+        cfg['settings'] = {'disk_min_file_size': 64, 'size_limit': 90000, 'cull_limit': rng.choice((1, 2, 3)),
+                           'eviction_policy': rng.choice(('least-recently-stored', 'least-recently-used', 'least-frequently-used'))}
+        cfg['fill'] = rng.randint(5, 9)
+        cfg['expired'] = rng.choice((0, 0, 1, 2))
+        name = rng.choice(('set', 'set', 'add', 'incr', 'push'))
+        op = {'op': name, 'retry': True}
+        if name in ('set', 'add'):
+            op['k'] = 'new'
+            op['v'] = {'big': ['bytes', rng.choice((3000, 9000)), 'new']}
+        elif name == 'incr':
+            op['k'] = 'ctr'
+        else:
+            op['v'] = {'big': ['bytes', 3000, 'pushed']}
+            op['prefix'] = 'q'
+        progs = {'v': [op]}
     else:
         cfg['target'] = 'cache'
         cfg['rk_mode'] = rng.choice(('seam', 'seam', 'tick'))
@@ -528,8 +546,69 @@ def _child(path, cfg, prog, kill_at, wfd, seed):
 
 # ---------------------------------------------------------------------------
 
+def _evict_prepare(cfg):
+    def prepare(world, main):
+        main.reset('cull_limit', 0)
+        for i in range(cfg['fill']):
+            main.set('f%d' % i, b'%d' % i * 9000, expire=(1 if i < cfg.get('expired', 0) else None))
+            world.sim.advance(0.5)
+        main.reset('cull_limit', cfg['settings']['cull_limit'])
+        world.sim.advance(5)
+    return prepare
+
+
+def run_evict(case):
+    probes = {}
+    cfg = case['cfg']
+
+    def inspect(world, main, targets, out):
+        violations = out['violations']
+        classify_kill(world.sim, probes)
+        fresh = post_mortem(world, case, out, violations, probes)
+        present = []
+        for k in sorted(fresh, key=repr):
+            try:
+                if k not in fresh:
+                    present.append(repr(k) + ':expired')     # physically there, expired: no lookup sees it
+                    continue
+                v = fresh.get(k, default=None)
+                if v is None:
+                    violations.append({'rule': 'C07/present-key-unreadable', 'sig': 'evict-scenario',
+                                       'detail': 'key %r is reported by iteration but get() finds no value' % (k,)})
+                present.append(repr(k))
+            except Exception as exc:  # noqa
+                violations.append({'rule': 'C07/present-key-unreadable', 'sig': 'evict-scenario:' + type(exc).__name__, 'detail': repr(k)})
+        out['present'] = present
+        finish_checks(fresh, violations)
+        fresh.close()
+
+    out = conc.run_and_inspect(case, inspect, prepare=_evict_prepare(cfg))
+    violations = out['violations']
+    base = {'digest': out.get('digest'), 'steps': out.get('steps', 0), 'switches': out.get('switches', 0),
+            'fired': out.get('fired', {}), 'virtual_s': out.get('virtual_s', 0.0), 'picks': out.get('picks')}
+    if conc.incident_violations(out, PROPERTY, violations):
+        return dict(base, violations=violations, probes=out.get('probes', {}), nontrivial=True)
+    for name, msg in conc.unexpected_exceptions(out):
+        violations.append({'rule': 'C07/unexpected-exception', 'sig': msg.split(':')[0], 'detail': '%s: %s' % (name, msg)})
+    pr = dict(out['probes'])
+    pr.update(probes)
+    killed = bool(out['fired'].get('kill'))
+    return dict(base, violations=violations, probes=pr, nontrivial=killed, outcome={'present': out.get('present')},
+                present=out.get('present'))
+
+
 def run_case(case):
     scen = case['cfg']['scen']
+    if scen == 'evict':
+        r = run_evict(case)
+        if case.get('expect_present') is not None and not r['violations'] and r.get('present') is not None:
+            # all-or-nothing incl. its evictions: the key set is the one before the write or the one after the complete write
+            if r['present'] not in case['expect_present']:
+                r['violations'].append({'rule': 'C07/post-crash-state', 'sig': 'evicting-write',
+                                        'detail': 'keys after the kill %s; before the write %s, after the complete write %s' % (
+                                            r['present'], case['expect_present'][0], case['expect_present'][1])})
+        r.pop('present', None)
+        return r
     if scen == 'lin':
         return run_lin(case)
     if scen == 'deque':
@@ -546,6 +625,12 @@ def run_seed(seed, tier):
     rng = random.Random('%s/c07-kill' % seed)
     results = []
     scen = case['cfg']['scen']
+    if scen == 'evict':
+        empty = copy.deepcopy(case)
+        empty['progs'] = {'v': []}
+        before = run_evict(empty).get('present')
+        after = run_evict(copy.deepcopy(case)).get('present')
+        case['expect_present'] = [before, after]
     base = run_case(copy.deepcopy(case))
     base['case'] = case
     base['first_of_seed'] = True
@@ -601,6 +686,8 @@ def _victim_seams(case):
                 counts.append(h.get('seams', 0))
 
     prepare = None
+    if case['cfg']['scen'] == 'evict':
+        prepare = _evict_prepare(case['cfg'])
     if case['cfg']['scen'] == 'bulk':
         cfg = case['cfg']
 
